@@ -40,11 +40,15 @@ def run(ctx, model_ok):
                             "Fraction/Decimal (object dtype holding numbers only), object-dtype ndarrays, objects with __array__, nestings deeper than numpy's axis limit are outside the "
                             "modelled grammar (object ndarrays with None rows / None entries are refused by the code for every attribute, Polyline.vertices included: oracle values)",
                             "full-strength 'never a foreign error' is false of the faithful model for check_format_input_vector2 (ValueError, pinned by a test: witness vector2_bad_shape_is_foreign, "
-                            "known finding), check_getBH_output_type (ValueError, pinned by a test: output_rejection_is_foreign) and check_format_input_angle (TypeError for a complex number: "
-                            "angle_complex_is_foreign); complex scalars were repaired in /repo (scalar_never_foreign)",
+                            "known finding) and check_getBH_output_type (ValueError, pinned by tests/test_getBH_interfaces.py::test_getBH_bad_output_type: output_rejection_is_foreign); "
+                            "complex scalars and complex / out-of-range angles were repaired in /repo (scalar_never_foreign, angle_error_is_bad)",
                             "'documented format' in the *_accepts_iff_documented theorems is Spec/ValidSpec.lean; its entry grammar (isEntry) is: numbers (int, float, bool, numpy.bool_, float nan). "
                             "A nan given as a float is accepted everywhere (passes 'no value <= 0', '>= 0' and all five CylinderSegment conditions: cylseg_accepts_nan, scalar_accepts_nan); "
-                            "check_format_input_anchor also accepts the empty (0,3) array (anchor_accepts_empty)",
+                            "the empty (0,3) anchor was repaired in /repo (anchor_rejects_empty, anchor_accepts_iff_documented at full strength)",
+                            "observed, not recorded as findings (oracle `observed_not_recorded`, re-evaluated on every run): bad `pixel_agg` raises AttributeError (pinned by "
+                            "tests/test_getBH_level2.py::test_pixel_agg_heterogeneous_pixel_shapes) or TypeError (non-string, 'pi'), 'any'/'all' refused, 'argmax'/'ndim'/'size' accepted; bad `output` raises ValueError "
+                            "(pinned); accepted beyond the documented format: anchor=0j, anchor=False, start=True, angle=[], nan floats in every scalar / vector attribute; refused although "
+                            "arguably documented: degrees=np.True_, start=1.0; getB observers still coerce None / numeric strings (check_format_input_observers, outside attribute assignment)",
                             "constructor path = setter path (constructors assign through the same setters: valid stream only), and 'no accepted object later fails inside a field computation "
                             "with an internal error' (check_dimensions / check_excitations, nan dimensions reaching the kernels): oracle only",
                             "rejected-assignment theorems are about setters of the form validate-then-assign (setAttrWith); that every real setter has this form is regenerated for Sensor.pixel / "
